@@ -47,8 +47,9 @@ class Obj:
 
 class Seg:
     def __init__(self, objs=(), nchunks=1, meta=True, newobj=True, inter=False, big=False,
-                 trunc=0, unknown_len=False, version=4713, raw_flag=True):
+                 trunc=0, unknown_len=False, version=4713, raw_flag=True, pad=0):
         self.objs, self.nchunks = list(objs), nchunks
+        self.pad = pad          # bytes of padding between lead-in and raw data of a segment WITHOUT metadata
         self.meta, self.newobj, self.inter, self.big = meta, newobj, inter, big
         self.trunc, self.unknown_len, self.version, self.raw_flag = trunc, unknown_len, version, raw_flag
 
@@ -392,6 +393,8 @@ def encode(segs, planter=None, index_too=True, allow_forbidden=False):
                     md.uint(tcode, 4, big)
                     md.raw(prop_value_bytes(tcode, value, big))
         mdb = md.bytes()
+        if not seg.meta and seg.pad:
+            mdb = bytes(seg.pad)
         toc = (TOC_META if seg.meta else 0) | (TOC_NEWOBJ if (seg.newobj and seg.meta) else 0) | \
               (TOC_RAW if seg.raw_flag else 0) | (TOC_INTER if seg.inter else 0) | (TOC_BIG if big else 0)
         full_len = len(mdb) + chunk_size * seg.nchunks
@@ -428,6 +431,8 @@ def encode(segs, planter=None, index_too=True, allow_forbidden=False):
                 ch.raw.extend(vals)
                 ch.seg_counts[si] = ch.seg_counts.get(si, 0) + cnt
         enc.version = enc.version or seg.version
+        if seg.unknown_len:
+            enc.has_marker = True
     for p in enc.order:
         if len(split_path(p)) == 2:
             enc.channels.setdefault(p, ChannelExp(p))
